@@ -154,7 +154,7 @@ def run(chk, tier, seed):
     rng = random.Random(seed)
     cases = c07.tlc_cases(chk, ["extend"])
     if tier == "quick":
-        keep = [c for c in cases if len([k for k, v in c["reply"].items() if wire_good().get(k) != v]) <= 1]
+        keep = [c for c in cases if len(c07.devs(c["reply"], "extend")) <= 1]
         rest = [c for c in cases if c not in keep]
         random.Random(seed + 1).shuffle(rest)
         cases_run = keep + rest[:300]
